@@ -519,7 +519,12 @@ func (w *tmWorld) buildUpdate(op kernel.Op) {
 	}
 	if mut == "outsider_signs" {
 		// signatures by keys that are not the validators' keys
+		var addrs []string
 		for a := range keys {
+			addrs = append(addrs, a)
+		}
+		sort.Strings(addrs)
+		for _, a := range addrs {
 			keys[a] = s.pool[(r.Intn(len(s.pool)))]
 		}
 	}
@@ -802,7 +807,8 @@ func (w *tmWorld) checkStore(when string) {
 		w.rec.Violate("C07", "latest_height", when, "client latest height %s, model %d", tcs.LatestHeight, w.m.latest)
 	}
 	store := k.ClientStore(ctx, w.name)
-	for mh, c := range w.m.cons {
+	for _, mh := range consKeys(w.m.cons) {
+		c := w.m.cons[mh]
 		height := clienttypes.NewHeight(w.stub.rev, mh)
 		got, ok := k.GetClientConsensusState(ctx, w.name, height)
 		if !ok {
@@ -824,7 +830,13 @@ func (w *tmWorld) checkStore(when string) {
 	// raw scan of the client store: no consensus state / metadata for heights outside the model
 	prefix := "clients/" + w.name + "/"
 	raw := 0
-	for key := range h.DumpStore("xibc") {
+	dump := h.DumpStore("xibc")
+	var dkeys []string
+	for key := range dump {
+		dkeys = append(dkeys, key)
+	}
+	sort.Strings(dkeys)
+	for _, key := range dkeys {
 		if !strings.HasPrefix(key, prefix+"consensusStates/") {
 			continue
 		}
@@ -850,7 +862,7 @@ func (w *tmWorld) checkStore(when string) {
 			}
 		}
 	}
-	for mh := range w.m.cons {
+	for _, mh := range consKeys(w.m.cons) {
 		if !seen[mh] {
 			w.rec.Violate("C19", "readback", "consensus_height_dropped:"+byteClass(w.stub.rev, mh), "%s: consensus state at %d-%d is stored but the keeper's iteration does not return it", when, w.stub.rev, mh)
 		}
@@ -867,3 +879,12 @@ func byteClass(rev, h uint64) string {
 }
 
 var _ = sdk.AccAddress{}
+
+func consKeys(m map[uint64]*consRec) []uint64 {
+	var out []uint64
+	for k := range m {
+		out = append(out, k)
+	}
+	sort.Slice(out, func(i, j int) bool { return out[i] < out[j] })
+	return out
+}
